@@ -51,6 +51,7 @@ HEADER_NAMES = ['h1.h', 'my hdr.h', 'h#2.h', 'h$3.h', 'inc/h4.h', 'h+5.h',
 
 class IncMachine(RuleBasedStateMachine):
     backend = 'make'
+    compiler = 'gccw'
 
     def __init__(self):
         super().__init__()
@@ -74,10 +75,11 @@ class IncMachine(RuleBasedStateMachine):
         self.clock = None
         self.env = sandbox.base_env(os.path.join(self.tmp, 'home'),
                                     path_extra=[WRAPBIN],
-                                    extra={'CC': 'gccw'})
+                                    extra={'CC': self.compiler})
 
     def _fail(self, key, msg):
         v = Violation(key, msg, {'backend': self.backend,
+                                 'compiler': self.compiler,
                                  'history': self.history})
         self._vf_holder['last'] = v
         raise v
@@ -427,25 +429,28 @@ class IncMachine(RuleBasedStateMachine):
         rec = self._vf_rec
         if self.nbuilds:
             ops = [h[0] for h in self.history]
-            rec.case({'op:' + o for o in set(ops)} | {self.backend},
-                     nontrivial=([self.backend, ops] if self.nontrivial
-                                 else None),
+            rec.case({'op:' + o for o in set(ops)} | {self.backend,
+                                                      self.compiler},
+                     nontrivial=([self.backend, self.compiler, ops]
+                                 if self.nontrivial else None),
                      sample={'backend': self.backend,
+                             'compiler': self.compiler,
                              'history': self.history})
         self.ctx.__exit__(None, None, None)
 
 
-def _machine(backend):
-    return type('IncMachine_' + backend, (IncMachine,), {'backend': backend})
+def _machine(backend, compiler='gccw'):
+    return type('IncMachine_{}_{}'.format(backend, compiler), (IncMachine,),
+                {'backend': backend, 'compiler': compiler})
 
 
-def _run(rec, seed, budget, shard, nshards, backend):
-    run_machine(rec, _machine(backend), budget, 14, seed)
+def _run(rec, seed, budget, shard, nshards, backend, compiler='gccw'):
+    run_machine(rec, _machine(backend, compiler), budget, 14, seed)
 
 
 def replay(task, case, rec):
     """Re-run a recorded history without Hypothesis."""
-    M = _machine(case['backend'])
+    M = _machine(case['backend'], case.get('compiler', 'gccw'))
     M._vf_holder = {'last': None}
     M._vf_rec = rec
     m = M()
@@ -542,7 +547,9 @@ def replay(task, case, rec):
 
 
 def tasks(tier):
-    return [Task('inc-make', _run, quick=16 * 4, thorough=16 * 60,
+    return [Task('inc-make', _run, quick=16 * 3, thorough=16 * 60,
                  backend='make'),
+            Task('inc-make-clang', _run, quick=16 * 2, thorough=16 * 40,
+                 backend='make', compiler='clangw'),
             Task('inc-ninja', _run, quick=16 * 3, thorough=16 * 60,
                  backend='ninja')]
